@@ -13,3 +13,5 @@ pub mod sut;
 #[global_allocator]
 static GLOBAL: alloc::Counting = alloc::Counting;
 pub mod selftest;
+pub mod fuzzbridge;
+pub mod corpus;
